@@ -86,6 +86,9 @@ class PrintFinder(ast.NodeVisitor):
             # argparse: usage / help text goes to sys.stdout unless a file is named
             kw = next((k.value for k in node.keywords if k.arg == 'file'), node.args[0] if node.args else None)
             chan = self.chan_of(kw)
+        elif f.split('.')[-1] == 'redirect_stdout':
+            # contextlib.redirect_stdout swaps the process-wide sys.stdout for the duration of a block (every thread sees the swap)
+            chan = 'stdout-rebind'
         elif f.startswith(('sys.stdout.', 'sys.__stdout__.')) and f not in ('sys.stdout.flush', 'sys.__stdout__.flush'):
             # anything else done to the guess channel (reconfigure, detach, close, ...)
             chan = 'stdout-config'
